@@ -1,7 +1,8 @@
 import Cvise.Model.World
 import Cvise.Gen.World
 /-!
-# C08 — no temporary directories are left behind (directory bookkeeping; processes are observed, not modelled)
+# C08 — no temporary directories or processes are left behind (directory bookkeeping; for processes: which exits call
+`kill_pid_queue()`, the rest is observed through /proc)
 -/
 namespace Cvise.C08
 open Cvise Cvise.W
@@ -18,6 +19,22 @@ theorem tmp_clean (sh : Shape) (h : GoodShape sh) (e : PassExit) :
     rootLeft sh false e = false ∧ candidateDirsLeft sh false e = false := by
   obtain ⟨h1, h2, h3, h4, h5⟩ := h
   cases e <;> simp [rootLeft, candidateDirsLeft, h1, h2, h3, h4, h5]
+
+/-- … and no test script started for a candidate survives the pass run: every way out goes through `kill_pid_queue()`
+    (after every round on the normal path, in both exception handlers otherwise) -/
+def GoodKills (sh : Shape) : Prop := sh.killAfterEveryRound = true ∧ sh.killOnError = true ∧ sh.killOnInterrupt = true
+
+theorem scripts_clean (sh : Shape) (h : GoodKills sh) (e : PassExit) : scriptsLeft sh e = false := by
+  obtain ⟨h1, h2, h3⟩ := h
+  cases e <;> simp [scriptsLeft, h1, h2, h3]
+
+theorem shipped_kills : GoodKills Gen.shape := by unfold GoodKills; decide
+
+/-- before fix F14 the error exits skipped it: a pass run that ended with --die-on-pass-bug left the scripts of the other
+    in-flight candidates running -/
+theorem old_error_exit_leaves_scripts :
+    scriptsLeft { rootAfterZeroCheck := true, removeRootOnError := true, removeRootOnInterrupt := true, removeRootOnReturn := true,
+                  sanityDirRemoved := true, candidateDirsInsideRoot := true, killOnError := false, killOnInterrupt := false } .cviseError = true := by decide
 
 /-- the code as it is now has that shape (regenerated from `run_pass` on every run) -/
 theorem shipped_shape : GoodShape Gen.shape ∧ Gen.shape.sanityDirRemoved = true := by unfold GoodShape; decide
